@@ -9,6 +9,7 @@ func init() {
 			{"R13.1", "datasets are merged only when names and types agree", ruleAppendComparesTypes},
 			{"R13.3", "every listed symbol of a query is visited", ruleRestrictionListFullyVisited},
 			{"R13.5", "the chunk buffer holds whole records of the bucket being scanned", ruleReadBufferWholeRecords},
+			{"R13.6", "projection does not write through the shared column-name list", ruleNameListParameterNotMutated},
 			// R13.2 (wrong error variable tested in executeQuery) was removed: the flagged branch is
 			// unreachable for every bucket the server can hold, so no failing input exists — by the
 			// task's definition a false alarm, not a finding (DESIGN.md §7).
@@ -24,6 +25,7 @@ func init() {
 			{"R14.3", "coercion is total over the numeric types", ruleCoercionTotal},
 			{"R14.4", "the schema check gets (bucket shapes, data shapes) in that order", ruleSchemaCheckArgumentRoles},
 			{"R14.5", "numeric conversion helpers read the value with its own kind's accessor", ruleConversionHelpersIndependent},
+			{"R14.6", "coercion keeps the column's position", ruleCoercionKeepsColumnOrder},
 		},
 	})
 	register(&Property{
@@ -37,6 +39,7 @@ func init() {
 			{"R8.1", "no data write can land in the header", ruleSlotIndexPositive},
 			{"R30.4", "slot → offset arithmetic is 64-bit", ruleOffsetArithmetic64},
 			{"R18.8", "the header reader shares no package-level scratch state", ruleNoNewSharedPackageState},
+			{"R18.9", "the write-back buffer of batched writes only holds bytes read from the file (it covers the header)", ruleWriteBackBufferIsRead},
 		},
 	})
 	register(&Property{
@@ -47,6 +50,7 @@ func init() {
 			{"R16.1", "key items validated before any file-system mutation", ruleCreationValidated("key")},
 			{"R16.2", "deletion follows catalog nodes", ruleDeletionFollowsCatalog},
 			{"R16.3", "no file mutation outside the owning gates", ruleNoForeignWriter("R16.3")},
+			{"R16.4", "an uncatalogued bucket is written only after AddTimeBucket validated its key", ruleUncataloguedWriteValidated},
 		},
 	})
 	register(&Property{
@@ -73,6 +77,7 @@ func init() {
 			{"R18.5", "fixed-length slot visibility", ruleFixedSlotSingleWrite},
 			{"R18.6", "lazy header load runs only under its sync.Once", ruleLazyLoadOnce},
 			{"R18.7", "a buffered record write is not torn by a flush", ruleBufferedWriteNotTorn},
+			{"R18.9", "the write-back buffer only holds bytes read from the file", ruleWriteBackBufferIsRead},
 			{"R18.8", "no new shared mutable package-level state in the request path", ruleNoNewSharedPackageState},
 			{"R28.6", "long-lived byte buffers do not escape", ruleScratchBufferDoesNotEscape},
 		},
